@@ -36,8 +36,9 @@ type StreamOpts struct {
 	NoNegZero       bool
 	SafeStrings     bool // strings limited to printable text without comment terminators
 	MaxDepth        int
-	Size            int // approximate number of value events
-	MaxArrayLen     int // max elements/bytes in arrays
+	Size            int  // approximate number of value events
+	MaxArrayLen     int  // max elements/bytes in arrays
+	NoLongPayloads  bool // never make the occasional 255..1025-byte media / custom binary payload
 	MaxComments     int
 	NoForwardRefs   bool // with Markers: only references to markers already defined
 	WideCustomTypes bool // custom type codes beyond 32 bits as well
@@ -981,10 +982,21 @@ func (g *streamGen) typedArray() {
 
 var mediaTypes = []string{"application/x-sh", "text/plain", "image/png", "a/b", "application/vnd.api+json", "x-y/z.w-1"}
 
+// longPayloadLens straddle the run lengths an encoder may write binary payloads in (256-byte hex runs, 512, 1024).
+var longPayloadLens = []int{255, 256, 257, 258, 300, 511, 512, 513, 600, 700, 1024, 1025}
+
+// payloadLen is the length of one binary payload (media, custom binary): usually up to MaxArrayLen, one in 16 long.
+func (g *streamGen) payloadLen() int {
+	if !g.o.NoLongPayloads && g.r.Intn(16) == 0 {
+		return longPayloadLens[g.r.Intn(len(longPayloadLens))]
+	}
+	return g.r.Intn(g.o.MaxArrayLen + 1)
+}
+
 func (g *streamGen) media() {
 	r := g.r
 	mt := mediaTypes[r.Intn(len(mediaTypes))]
-	data := randBytes(r, r.Intn(g.o.MaxArrayLen+1))
+	data := randBytes(r, g.payloadLen())
 	if g.o.Chunked && r.Intn(3) == 0 {
 		g.emit(ev.Event{K: ev.MBEGIN, S: mt})
 		g.out = append(g.out, ChunkBody(r, 8, uint64(len(data)), data, false)...)
@@ -1001,7 +1013,7 @@ func (g *streamGen) custom(binary bool) {
 		ct = []uint64{1 << 32, 1<<32 + 1, 1 << 40, math.MaxInt64, 1 << 63, math.MaxUint64}[r.Intn(6)]
 	}
 	if binary {
-		data := randBytes(r, r.Intn(g.o.MaxArrayLen+1))
+		data := randBytes(r, g.payloadLen())
 		if g.o.Chunked && r.Intn(3) == 0 {
 			g.emit(ev.Event{K: ev.CBEGIN, AT: events.ArrayTypeCustomBinary, U: ct})
 			g.out = append(g.out, ChunkBody(r, 8, uint64(len(data)), data, false)...)
